@@ -115,7 +115,10 @@ pub async fn add(
     if !peers_args.first {
         peers_args.addrs.extend(PeersArgs::read_addr_from_env());
     }
-    peers_args.bootstrap_cache_dir = bootstrap_cache_dir;
+    // A directory given with `--bootstrap-cache-dir` is kept; the service user's default only fills the gap.
+    if peers_args.bootstrap_cache_dir.is_none() {
+        peers_args.bootstrap_cache_dir = bootstrap_cache_dir;
+    }
 
     let options = AddNodeServiceOptions {
         auto_restart,
